@@ -38,6 +38,17 @@ CHECKS = {
     note="Assumed (A15/A9): check_response is deterministic in (alternative, expect value) for a fixed grader and submission, returns a fresh well-formed entry or raises, "
          "and writes nothing the caller can reach. The two existential clauses (membership in results, longest message) were left undecided by z3 and are bounded-only.",
     design="6/C08"),
+ 'C07': dict(
+    technique="contract-based deductive verification (pyvc on the real consolidation functions; sum lemmas proved by induction; products/divisions abstracted with re-proved facts); bounded run-time checks with a brute-force oracle as stand-in",
+    text="Proved for all lists of item grades in [0,1] of any length and any number of expected items >= 1: consolidate_grades returns exactly "
+         "max(0, (sum of item credit - number of surplus items) / expected items) with missing items counting 0, within [0,1], touching only its (fresh) argument list; "
+         "consolidate_single_return applies the partial_credit switch (anything short of full item credit scores 0) and returns a fresh well-formed entry; "
+         "SingleListGrader.process_grade_list multiplies by the answer's own credit, recomputes ok, computes all_awarded (own items, or the children's flags when nested) and "
+         "appends the answer-level message only if all_awarded. Bounded (not proved): split/padding/optimal matching in check_response, permutation invariance, "
+         "length_error/missing_error, nesting, against a brute-force oracle.",
+    note="Assumed: A1 reals; item results are well-formed entries with grades in [0,1] (C01 contracts of the subgraders); str.join/format uninterpreted (A6). "
+         "check_response itself (str.split, closures from padded_check, Munkres) is outside the proved part; Munkres optimality is C06.",
+    design="6/C07"),
 }
 
 NOT_YET = {}
